@@ -456,7 +456,7 @@ PROPS = {
     'C15': dict(level='model_checking', reasons=ALG_REASONS | {'padding'}, jobs=c15_jobs, mc=c15_mc, skip_reject_cfgs=[TSAN_CACHED],
                 assumptions=['schedules on the real code are those the OS produces; ThreadSanitizer (happens-before) reports a race independently of lucky timing, but only for code that ran',
                              'a report must repeat on one re-run before it is reported', 'the model classifies calls by the globals they touch; the binding is the TSan-observed execution of every routine by >= 2 threads']),
-    'C10': dict(level='model_checking', reasons={'padding', 'result', 'crash', 'unexpected_die', 'unknown_op', 'state_before_step', 'state_after_step'},
+    'C10': dict(level='model_checking', reasons={'padding', 'result', 'crash', 'unexpected_die', 'unknown_op', 'state_before_step', 'state_after_step', 'observer_on_state', 'relation_on_state'},
                 prepare=c10_prepare, jobs=c10_jobs, mc=lambda tier: [mcjob('MC_Store', workers=12, timeout=1800)], post_drive=c10_post_drive,
                 assumptions=GEN_ASSUME + ['environments: fresh process; allocator wrapper poisoning every block on hand-out (0xA5) and on release (0x5A); '
                                           'warm-up pass of the same case followed by filling every cached block with ones; destinations pre-filled with random data']),
